@@ -4,7 +4,10 @@ import (
 	"crypto/sha256"
 	"fmt"
 	"math/rand"
+	"runtime"
 	"sort"
+	"sync"
+	"sync/atomic"
 	"time"
 
 	enc "github.com/named-data/ndnd/std/encoding"
@@ -505,6 +508,137 @@ func (cr *c20Run) stepReply(i int, ev *c20Event) {
 	cr.c.Distinct(fmt.Sprintf("reply|late=%v", now.After(meta.deadline)))
 }
 
+// c20Concurrent: real goroutines express, feed Data and advance the virtual clock at the same time
+// (race-detector build); the exactly-once / correct-result oracle decides, race reports are diagnostics.
+func c20Concurrent(c *h.Ctx, id string, r *rand.Rand) {
+	c.Eval(1)
+	tm := simeng.NewTimer()
+	fc := simeng.NewFace(true)
+	eng := basic.NewEngine(fc, tm, sec.NewSha256IntSigner(tm), func(enc.Name, enc.Wire, ndn.Signature) bool { return true })
+	if err := eng.Start(); err != nil {
+		c.Inconclusive("engine start: " + err.Error())
+		return
+	}
+	fc.OnSend = func([]byte) {} // discard outgoing packets
+	u := gen.NewUniverse(3, false)
+	nInt := 30 + r.Intn(30)
+	type rec struct {
+		name     enc.Name
+		cbp      bool
+		life     time.Duration
+		tExpress time.Time
+		count    atomic.Int32
+		kind     atomic.Int32
+		dataName atomic.Value
+		tResolve atomic.Int64
+	}
+	recs := make([]*rec, nInt)
+	var names []enc.Name
+	for i := range recs {
+		nm := u.Pick(r)
+		if len(nm) == 0 {
+			nm = u.PickDepth(r, 1)
+		}
+		recs[i] = &rec{name: nm, cbp: r.Intn(3) == 0, life: []time.Duration{100 * time.Millisecond, 500 * time.Millisecond, 2 * time.Second}[r.Intn(3)]}
+		names = append(names, nm)
+	}
+	wires := map[string][]byte{}
+	for _, nm := range names {
+		for _, x := range []enc.Name{nm, u.Extend(r, nm, 1)} {
+			wires[nkey(x)] = c20Data(x)
+		}
+	}
+	var wkeys []string
+	for k := range wires {
+		wkeys = append(wkeys, k)
+	}
+	sort.Strings(wkeys)
+	seedD, seedT := r.Int63(), r.Int63()
+	var wg sync.WaitGroup
+	wg.Add(3)
+	go func() { // expresser
+		defer wg.Done()
+		for i, rc := range recs {
+			i, rc := i, rc
+			life := rc.life
+			nonce := uint64(5000 + i)
+			ei, err := spec.Spec{}.MakeInterest(rc.name.Clone(), &ndn.InterestConfig{CanBePrefix: rc.cbp, Lifetime: &life, Nonce: &nonce}, nil, nil)
+			if err != nil {
+				continue
+			}
+			rc.tExpress = tm.Now()
+			_ = eng.Express(ei, func(a ndn.ExpressCallbackArgs) {
+				rc.count.Add(1)
+				rc.kind.Store(int32(a.Result))
+				rc.tResolve.Store(tm.Now().UnixNano())
+				if a.Result == ndn.InterestResultData && a.Data != nil {
+					rc.dataName.Store(a.Data.Name().Clone())
+				}
+			})
+			if i%4 == 0 {
+				runtime.Gosched()
+			}
+		}
+	}()
+	go func() { // data feeder
+		defer wg.Done()
+		rr := rand.New(rand.NewSource(seedD))
+		for k := 0; k < 3*nInt; k++ {
+			_ = fc.Feed(wires[wkeys[rr.Intn(len(wkeys))]])
+			if k%3 == 0 {
+				runtime.Gosched()
+			}
+		}
+	}()
+	go func() { // clock
+		defer wg.Done()
+		rr := rand.New(rand.NewSource(seedT))
+		for k := 0; k < 60; k++ {
+			tm.Advance(time.Duration(10+rr.Intn(80)) * time.Millisecond)
+			runtime.Gosched()
+		}
+	}()
+	done := make(chan struct{})
+	go func() { wg.Wait(); close(done) }()
+	select {
+	case <-done:
+	case <-time.After(60 * time.Second):
+		c.Violation("C20:concurrent-deadlock", id, "expressing, feeding Data and advancing the clock concurrently did not finish within 60 s", nil)
+		return
+	}
+	tm.Advance(10 * time.Second)
+	for i, rc := range recs {
+		if rc.tExpress.IsZero() {
+			continue
+		}
+		n := rc.count.Load()
+		det := map[string]any{"interest": rc.name.String(), "cbp": rc.cbp, "lifetime_ms": rc.life.Milliseconds(), "profile": "concurrent"}
+		if n != 1 {
+			c.Violation("C20:concurrent:callback-count", id, fmt.Sprintf("Interest #%d (%s) callback ran %d times under concurrent arrivals and timer expirations", i, rc.name, n), det)
+			return
+		}
+		switch ndn.InterestResult(rc.kind.Load()) {
+		case ndn.InterestResultData:
+			dn, _ := rc.dataName.Load().(enc.Name)
+			if !(refNameCompare(dn, rc.name) == 0 || (rc.cbp && refIsPrefix(rc.name, dn))) {
+				c.Violation("C20:concurrent:resolved-by-non-satisfying-data", id, fmt.Sprintf("Interest #%d (%s, CanBePrefix=%v) resolved with Data %s", i, rc.name, rc.cbp, dn), det)
+				return
+			}
+		case ndn.InterestResultTimeout:
+			if time.Unix(0, rc.tResolve.Load()).Before(rc.tExpress.Add(rc.life)) {
+				c.Violation("C20:concurrent:timeout-too-early", id, fmt.Sprintf("Interest #%d timed out before its lifetime", i), det)
+				return
+			}
+		default:
+			c.Violation("C20:concurrent:unexpected-result", id, fmt.Sprintf("Interest #%d resolved with result %d", i, rc.kind.Load()), det)
+			return
+		}
+	}
+	c.Count("concurrent_runs", 1)
+	c.Count("concurrent_interests", int64(nInt))
+	c.Distinct(fmt.Sprintf("concurrent|n=%d", nInt/10*10))
+}
+
 func c20Main(c *h.Ctx) {
 	n := c.Pick(1500, 40000)
 	for k := 0; k < n; k++ {
@@ -514,14 +648,20 @@ func c20Main(c *h.Ctx) {
 		}
 		c20History(c, id, c.Rng(id))
 	}
+	for k := 0; k < c.Pick(15, 300); k++ {
+		id := fmt.Sprintf("conc%d", k)
+		if c.Case(id) {
+			c20Concurrent(c, id, c.Rng(id))
+		}
+	}
 }
 
 func init() {
 	h.Register(&h.Prop{
-		ID: "C20", Level: "exploration",
+		ID: "C20", Level: "exploration", Race: true,
 		Rule: "histories of 25-55 events on a real basic.Engine over a harness face and a virtual clock: EXPRESS (nested names with duplicates, CanBePrefix, implicit digest right/wrong, lifetimes 100 ms/500 ms/4 s), DATA (equal/longer/shorter/sibling names), NACK, ADVANCE (1 ms .. 4.1 s incl. lifetime+margin boundaries), ATTACH/DETACH, INCOMING INTEREST, REPLY; " +
 			"oracle: every callback at most once during and exactly once by the end, Data result only from Data that satisfies (name/CanBePrefix/digest) and during that Data's event, every unexpired pending Interest a Data satisfies is resolved in that event, Nack only for exactly that name, Timeout never before the lifetime and delivered by lifetime+margin, " +
-			"incoming Interest handed to the longest attached prefix per the harness's own map, Reply transmits iff virtual now <= deadline; distinct = per-event decision classes",
+			"incoming Interest handed to the longest attached prefix per the harness's own map, Reply transmits iff virtual now <= deadline; plus a concurrent profile in a race-detector build (one goroutine expresses 30-60 Interests, one feeds Data, one advances the clock): every callback exactly once with a satisfying result, race reports listed as diagnostics; distinct = per-event decision classes",
 		Assumptions: []string{"virtual ndn.Timer owned by the harness (thread-safe); callbacks only record", "Nacks are sent for names without implicit digest"},
 		Batches:     func(t bool) int { return 16 },
 		ChildTimeoutS: func(t bool) int {
@@ -532,6 +672,7 @@ func init() {
 		},
 		Run:         c20Main,
 		MinDistinct: 25,
-		Floors:      map[string]int64{"interests_expressed": 1000, "data_events": 1000, "timeouts": 100, "incoming_interests": 200},
+		Floors:      map[string]int64{"interests_expressed": 1000, "data_events": 1000, "timeouts": 100, "incoming_interests": 200, "concurrent_runs": 50},
+		PostProcess: racePostDiagnostic,
 	})
 }
